@@ -3,10 +3,17 @@
   `2·G`) over COOPERATIVE runs: the passage of time (`delay`), and the assembly of the per-group lemmas.
 -/
 import Kopf.Lemmas.C20_Reach
-import Kopf.Lemmas.C20_InvT_g1
-import Kopf.Lemmas.C20_InvT_g2
-import Kopf.Lemmas.C20_InvT_g3
-import Kopf.Lemmas.C20_InvT_g4
+import Kopf.Lemmas.C20_InvT_d1
+import Kopf.Lemmas.C20_InvT_d2
+import Kopf.Lemmas.C20_InvT_d3
+import Kopf.Lemmas.C20_InvT_d4
+import Kopf.Lemmas.C20_InvT_d5
+import Kopf.Lemmas.C20_InvT_d6
+import Kopf.Lemmas.C20_InvT_d7
+import Kopf.Lemmas.C20_InvT_d8
+import Kopf.Lemmas.C20_InvT_d9
+import Kopf.Lemmas.C20_InvT_d10
+import Kopf.Lemmas.C20_InvT_d11
 set_option linter.unusedSimpArgs false
 set_option linter.unusedVariables false
 namespace Kopf.C20
@@ -198,12 +205,18 @@ theorem InvT.preservedC {cfg : Cfg} {s s' : State} {l : Label} (hB : InvB s) (hC
   | _ =>
     have hs := stepC_step h
     have hnd : ∀ n, l ≠ .delay n := by intro n hn; rw [hn] at hl; cases hl
-    have hgrp : l.grp = 1 ∨ l.grp = 2 ∨ l.grp = 3 ∨ l.grp = 4 := by rw [hl]; simp [Label.grp]
-    rcases hgrp with hg | hg | hg | hg
-    · exact InvT.pres_g1 hB hC hD hE hI hnd hg hs
-    · exact InvT.pres_g2 hB hC hD hE hI hnd hg hs
-    · exact InvT.pres_g3 hB hC hD hE hI hnd hg hs
-    · exact InvT.pres_g4 hB hC hD hE hI hnd hg hs
+    rcases l.grpD_cases with hg | hg | hg | hg | hg | hg | hg | hg | hg | hg | hg
+    · exact InvT.pres_d1 hB hC hD hE hI hnd hg hs
+    · exact InvT.pres_d2 hB hC hD hE hI hnd hg hs
+    · exact InvT.pres_d3 hB hC hD hE hI hnd hg hs
+    · exact InvT.pres_d4 hB hC hD hE hI hnd hg hs
+    · exact InvT.pres_d5 hB hC hD hE hI hnd hg hs
+    · exact InvT.pres_d6 hB hC hD hE hI hnd hg hs
+    · exact InvT.pres_d7 hB hC hD hE hI hnd hg hs
+    · exact InvT.pres_d8 hB hC hD hE hI hnd hg hs
+    · exact InvT.pres_d9 hB hC hD hE hI hnd hg hs
+    · exact InvT.pres_d10 hB hC hD hE hI hnd hg hs
+    · exact InvT.pres_d11 hB hC hD hE hI hnd hg hs
 
 theorem InvT.reachC {cfg : Cfg} {s : State} (h : ReachC cfg s) : InvT cfg s :=
   ReachC.induction (P := InvT cfg) (InvT.init cfg)
